@@ -407,11 +407,13 @@ def r4_bounds(repo):
     obs = []
     f = repo.method(T + ".TypeParameter", "is_subtype", inherited=False)
     rets = [n for n in iter_own_nodes(f.node) if isinstance(n, ast.Return)]
-    first = f.node.body[0]
-    ok = isinstance(first, ast.If) and src(first.test) in ("not self.bound", "self.bound is None") and \
-        len(first.body) == 1 and isinstance(first.body[0], ast.Return) and const_value(first.body[0].value, 1) is False
+    nonfalse = [r for r in rets if const_value(r.value, 1) is not False]
+    ok = bool(nonfalse) and always_leaves(f.node.body) and all(
+        any((s_ == "self.bound" and p_) or (s_ == "self.bound is None" and not p_)
+            for s_, p_ in [(src(t_), p_) for t_, p_ in flat_guards(r)]) for r in nonfalse)
     obs.append(Ob("C06-R4", "TypeParameter.is_subtype:unbounded-answers-False", _w(f), ok,
-                  "an unbounded type variable is a subtype of nothing: first statement must be `if not self.bound: return False`"))
+                  "an unbounded type variable is a subtype of nothing: every answer other than False is given only when "
+                  "`self.bound` exists"))
     pos = [r for r in rets if not (isinstance(r.value, ast.Constant) and r.value.value is False)]
     ok = len(pos) == 1 and "self.bound" in src(pos[0].value) and f.params[1] in src(pos[0].value)
     obs.append(Ob("C06-R4", "TypeParameter.is_subtype:answers-through-bound", _w(f), ok,
